@@ -9,9 +9,9 @@ package main
 // list whose deepest level is at most 32, and - in case the shape is accepted - sane magnitudes of matrix 0
 // (see macro indexable, all but its clause about variable widths, which validation itself must establish).
 //@ macro saneRoot(tms, id) = hasKey(tms.TileMatrices, 0) ==> 0 <= id && 1 <= tms.TileMatrices[0].TileWidth && tms.TileMatrices[0].TileWidth <= 1099511627776 && tmLevel(tms, id) <= 32
-//@     && bbOK(tms) && bbMaxX(tms) - bbMinX(tms) >= pow2(tmLevel(tms, id))
+//@     && bbOK(tms) && bbMaxX(tms) - bbMinX(tms) >= pow2(tmLevel(tms, id)) && bbMaxY(tms) - bbMinY(tms) >= 1
 //@ func validateTileMatrixSet
-//@   prelude arith tmsaxis strings
+//@   prelude arith tmsaxis strings morton
 //@   requires forall(k Int, hasKey(tms.TileMatrices, k) ==> decodedTM(tms.TileMatrices[k]))
 //@   requires len(tileMatrixIDs) > 0
 //@   requires forall(i, 0, len(tileMatrixIDs), saneRoot(tms, tileMatrixIDs[i]))
